@@ -125,13 +125,9 @@ impl<T: ?Sized> RwLock<T> {
                 .compare_exchange(0, 1, Ordering::SeqCst, Ordering::SeqCst)
             {
                 Ok(_) => Ok(()),
-                Err(_) => {
-                    if self.poison.get() {
-                        Err(TryLockError::Poisoned(PoisonError::new(())))
-                    } else {
-                        Err(TryLockError::WouldBlock)
-                    }
-                }
+                // losing the race means the lock is held by someone else,
+                // poisoned or not; the poison flag is checked by the guard
+                Err(_) => Err(TryLockError::WouldBlock),
             }
         } else {
             Err(TryLockError::WouldBlock)
